@@ -337,6 +337,11 @@ def gen_program_mul(pid, dirname, packages):
         return
     try:
         utils.random.r.seed()
+        if os.environ.get('HEPHAESTUS_VERIF') == '1' and \
+                os.environ.get('HEPHAESTUS_VERIF_SEED') is not None:
+            # Verification hook (guarded, add-only): replayable worker seeds.
+            utils.random.r.seed(
+                int(os.environ['HEPHAESTUS_VERIF_SEED']) + pid)
         return gen_program(pid, dirname, packages)
     except KeyboardInterrupt:
         STOP_COND = True
